@@ -452,7 +452,7 @@ pub fn run(args: &Args) -> i32 {
     let mut per = vec![];
     for (idx, sc) in scs.iter().enumerate() {
         let left = budget.saturating_sub(start.elapsed());
-        let share = (left / (scs.len() - idx) as u32).max(Duration::from_secs(4));
+        let share = (left / (scs.len() - idx) as u32).max(Duration::from_millis(args.tier.pick(4000, 1000)));
         let mut st = Stats::default();
         let cfg = ExploreCfg { bound, deadline: Instant::now() + share, max_schedules: u64::MAX, stop_on_violation: true };
         explore(&mut pool, &serde_json::to_string(sc).unwrap(), &cfg, &mut st);
